@@ -24,6 +24,9 @@ def gen_case(rnd):
     if rnd.random() < .25: names = names[:-1] + ['result']      # an attribute that happens to be called like the result slot of ensure validators
     cls_attrs = {n: rnd.randint(0, 3) for n in names if rnd.random() < .6}
     init = [[n, rnd.randint(0, 5)] for n in names if n not in cls_attrs or rnd.random() < .5]
+    lazy = [e for e in init if e[0] not in cls_attrs]
+    if lazy and rnd.random() < .2:
+        init.remove(rnd.choice(lazy))      # an attribute that exists neither at class level nor after __init__: assigned only later, if at all
     invs = []
     for _ in range(rnd.randint(1, 3)):
         form = 'explicit' if rnd.random() < .7 else 'short'
@@ -71,14 +74,15 @@ def coq_case(c):
 def inv_holds(c, attrs):
     """independent evaluation on vars(obj) over the class attributes; None = cannot be evaluated"""
     merged = dict(c['cls_attrs']); merged.update(attrs)
+    unknown = False
     for i in c['invs']:
         p = i['pred']
         try:
             ok = merged[p[1]] >= p[2] if p[0] == 'ge' else merged[p[1]] <= p[2] if p[0] == 'le' else merged[p[1]] + merged[p[2]] >= p[3]
         except KeyError:
-            return None
+            unknown = True; continue      # this one cannot be evaluated (an attribute it reads does not exist); the others still count
         if not ok: return False
-    return True
+    return None if unknown else True
 
 
 def parse_attrs(s):
@@ -99,6 +103,9 @@ def monitor(c, r):
         if steps[0].startswith('new exc') and len(c['init']) == 1 and all(a in c['cls_attrs'] or a == c['init'][0][0] for i in c['invs'] for a in i['pred'][1:-1]):
             out.append((f'construction raised {steps[0][4:]} although every attribute the invariants read exists', tag))
         return out
+    if c['init'] and inv_holds(c, {k: v for k, v in c['init']}) is False:      # the last assignment of __init__ is an assignment like any other
+        out.append((f'construction completed although an invariant is false on the constructed object: {dict(c["init"])}', tag))
+        return out
     if meta and (not meta['isinstance'] or not meta['prop']):
         out.append((f'isinstance / property of the decorated class differ from the plain class: {meta}', None))
     enabled = True
@@ -108,17 +115,20 @@ def monitor(c, r):
         attrs = parse_attrs(attrs_s)
         if o[0] == 'switch': enabled = bool(o[1]); prev = attrs; continue
         holds = inv_holds(c, attrs)
+        if (res.startswith('exc KeyError') or res.startswith('exc AttributeError')) and \
+                not all(a in (set(c['cls_attrs']) | set(attrs)) for i in c['invs'] for a in i['pred'][1:-1]):
+            prev = attrs; continue      # an attribute some invariant reads exists nowhere yet (assigned lazily): the validator's own error
         if enabled and o[0] in ('set', 'call') and res.startswith('ok') and holds is False:
-            out.append((f'{o} completed without a violation error but leaves an invariant false: {attrs}', tag)); break
+            out.append((f'{o} completed without a violation error but leaves an invariant false: {attrs}', None)); break
         if enabled and o[0] in ('set', 'call') and holds is False and prev is not None and attrs != prev and res != 'InvContractError' \
                 and not res.startswith('ok') and not res.startswith('exc KeyError') and not res.startswith('exc AttributeError'):
-            out.append((f'{o} leaves an invariant false ({attrs}) but raised {res!r}, not the invariant-violation error', tag)); break
+            out.append((f'{o} leaves an invariant false ({attrs}) but raised {res!r}, not the invariant-violation error', None)); break
         if enabled and o[0] == 'call' and prev is not None and inv_holds(c, prev) is False and attrs != prev:
-            out.append((f'method entered although an invariant was already false: state {prev} -> {attrs}', tag)); break
+            out.append((f'method entered although an invariant was already false: state {prev} -> {attrs}', None)); break
         if not enabled and res == 'InvContractError':
-            out.append((f'invariants evaluated while contracts are disabled on {o}', tag)); break
+            out.append((f'invariants evaluated while contracts are disabled on {o}', None)); break
         if o[0] == 'set' and attrs.get(o[1]) != o[2]:
-            out.append((f'assignment {o} was rolled back or lost: {attrs}', tag)); break
+            out.append((f'assignment {o} was rolled back or lost: {attrs}', tag if 'KeyError' in res else None)); break
         if o[0] == 'static' and o[1] % 2 == 0:
             # a classmethod called through the instance is a method call made through the instance: not entered on a broken instance
             if enabled and prev is not None and inv_holds(c, prev) is False and res.startswith('ok'):
@@ -126,11 +136,14 @@ def monitor(c, r):
             if res.startswith('ok') and res != f'ok i{o[1]}':
                 out.append((f'class method result differs from the undecorated class: {res}', tag)); break
             if not res.startswith('ok') and (not enabled or prev is None or inv_holds(c, prev) is not False):
-                out.append((f'class method raised {res} on an instance whose invariants hold', tag)); break
+                out.append((f'class method raised {res} on an instance whose invariants hold', tag if 'KeyError' in res else None)); break
         if o[0] == 'static' and o[1] % 2 == 1 and not res.startswith('ok'):
-            out.append((f'static method raised {res}', tag)); break
+            out.append((f'static method raised {res}', None)); break
         if res.startswith('exc KeyError') or res.startswith('exc AttributeError'):
-            out.append((f'{o}: the invariant could not be evaluated: {res}', tag)); break
+            known = set(c['cls_attrs']) | set(attrs)
+            if all(a in known for i in c['invs'] for a in i['pred'][1:-1]):
+                out.append((f'{o}: the invariant could not be evaluated: {res}', tag)); break
+            # an attribute some invariant reads exists nowhere (it is assigned lazily): the validator's own error is all that can happen
         prev = attrs
     return out
 
